@@ -6,6 +6,7 @@
    PARTIAL: float64 rounding error bounds are not proved (see DESIGN); float64 vs 60-digit evaluation is a test (evidence). *)
 From Coq Require Import Reals.
 From VP Require Import Lib RLib Spec Compute Tables Spec_planar Spec_spatial1 Spec_spatial2 Spec_lorentz C02_defs C09_boost C10_rot.
+From VP Require Import Spec_lorentz2 Spec_lorentz3.
 Open Scope R_scope.
 
 (* coordinate relations, all systems *)
@@ -87,4 +88,28 @@ Theorem C02_linear_maps : forall (s : az) (a b : R),
      = Some (xx * x + xy * y + xz * z + xt * t, yx * x + yy * y + yz * z + yt * t, zx * x + zy * y + zz * z + zt * t, tx * x + ty * y + tz * z + tt * t)).
 Proof.
   intros. exact (conj (fun xx xy yx yy => transform2D_spec s xx xy yx yy a b) (conj transform3D_def transform4D_def)).
+Qed.
+
+(* the documented definitions of the Lorentz scalars and of the unit vectors hold in EVERY coordinate system (12 signatures), in terms
+   of the Cartesian denotation (T = time, Z = z, P2 = |p|^2, rho): beta = |p| / t, gamma = t / tau, tau = sqrt(t^2 - |p|^2),
+   rapidity = 1/2 ln((t + z) / (t - z)), Mt^2 = t^2 - z^2, Et = t rho / |p| (= t sin theta), unit = v / |v|, v / tau *)
+Theorem C02_lorentz_scalars_all_signatures : forall s l t a b c d, rep4 s l t a b c d ->
+  let T := st s l t a b c d in let Z := sz s l a b c in let P2 := smag2 s l a b c in
+  numr (T_lorentz_beta s l t a b c d) = Some (sqrt P2 / T) /\
+  numr (T_lorentz_rapidity s l t a b c d) = Some (1 / 2 * ln ((T + Z) / (T - Z))) /\
+  numr (T_lorentz_Mt2 s l t a b c d) = Some (T * T - Z * Z) /\
+  numr (T_lorentz_Mt s l t a b c d) = Some (sqrt (T * T - Z * Z)) /\
+  (P2 <= T * T -> numr (T_lorentz_tau s l t a b c d) = Some (sqrt (T * T - P2))) /\
+  (P2 <= T * T -> numr (T_lorentz_gamma s l t a b c d) = Some (T / sqrt (T * T - P2))) /\
+  (pos_az s a b -> numr (T_lorentz_Et s l t a b c d) = Some (T * srho s a b / sqrt P2)) /\
+  (pos_az s a b -> numr (T_lorentz_Et2 s l t a b c d) = Some ((T * srho s a b / sqrt P2) * (T * srho s a b / sqrt P2))) /\
+  (0 < P2 -> den3 (T_spatial_unit s l a b c) = Some (sx s a b / sqrt P2, sy s a b / sqrt P2, Z / sqrt P2)) /\
+  (P2 < T * T -> (t = TTau -> 0 < d) ->
+     den4 (T_lorentz_unit s l t a b c d)
+     = Some (sx s a b / sqrt (T * T - P2), sy s a b / sqrt (T * T - P2), Z / sqrt (T * T - P2), T / sqrt (T * T - P2))).
+Proof.
+  intros s l t a b c d H. cbv zeta. pose proof H as [H3 _].
+  exact (conj (beta_spec s l t a b c d H) (conj (rapidity_spec s l t a b c d H) (conj (Mt2_spec s l t a b c d H)
+    (conj (Mt_spec s l t a b c d H) (conj (tau_spec s l t a b c d H) (conj (gamma_spec s l t a b c d H)
+    (conj (Et_spec s l t a b c d H) (conj (Et2_spec s l t a b c d H) (conj (unit_spec3 s l a b c H3) (unit_spec4 s l t a b c d H)))))))))).
 Qed.
